@@ -2,7 +2,7 @@
 import json
 
 from mirsym import engine
-from . import C03, buildrules as BR
+from . import C03, buildrules as BR, staterules as SR
 
 LEVEL = 'other'
 EXPLANATION = ('The mask can influence a tessellation only through (1) the guard of the per-cell build closures and (2) the face rule. Both are '
@@ -21,6 +21,8 @@ def check(run):
     BR.check_direct_build_closure(run, funcs, 'C07')
     BR.check_integrator_closures(run, funcs, 'C07')
     BR.check_build_partial_passes_mask(run, funcs, 'C07')
+    SR.all_transitions(run, funcs, 'C07')       # build(mask) -> with_faces() keeps the mask and the cells
+    BR.check_face_loops(run, funcs, 'C07')      # the same rule in the symmetric face integrals (anchor convex_cell.rs:646-657)
     run.assume('the construction of one ConvexCell (r-tree search + clipping) is a function of the arguments of ConvexCell::build: not encoded')
     return run.finish(LEVEL, EXPLANATION, trusted=['rustc -Zunpretty=mir', 'z3 5.1.0 / 4.8.12, cvc5 1.0.3', 'std Option/Vec/iterator models of mirsym'])
 
@@ -29,4 +31,6 @@ def replay(path):
     d = json.load(open(path))
     if d['kind'] == 'face_rule_pair':
         return C03.replay(path)
+    if d['kind'] in SR.NATIVE:
+        return SR.replay(d)
     return BR.replay(d)
